@@ -53,9 +53,13 @@ storage_validate(const struct DeviceManager* system,
               driver_open_device(device_manager_get_driver(system, identifier),
                                  identifier->device_id,
                                  &device));
-        EXPECT(device->identifier.kind == DeviceKind_Storage,
-               "Expected a Storage device, but a %s device was opened.",
-               device_kind_as_string(device->identifier.kind));
+        if (device->identifier.kind != DeviceKind_Storage) {
+            LOGE("Expected a Storage device, but a %s device was opened.",
+                 device_kind_as_string(device->identifier.kind));
+            // not a Storage: hand it straight back to its driver
+            driver_close_device(device);
+            goto Error;
+        }
         device->identifier = *identifier;
         self = containerof(device, struct Storage, device);
     }
